@@ -25,7 +25,18 @@ func init() {
 
 var reCfg = regexp.MustCompile(`[A-Za-z_.()]*EncoderConfig\.`)
 
-func normCfg(a string) string { return reCfg.ReplaceAllString(a, "cfg.") }
+func normCfg(a string) string { return normEnt(reCfg.ReplaceAllString(a, "cfg.")) }
+
+// entParam: the name EncodeEntry gives its Entry parameter in the function being decided; renderings are normalised
+// to "ent" so that the rules do not depend on it.
+var entParam = "ent"
+
+func normEnt(a string) string {
+	if entParam == "ent" || entParam == "" {
+		return a
+	}
+	return regexp.MustCompile(`\b`+regexp.QuoteMeta(entParam)+`\b`).ReplaceAllString(a, "ent")
+}
 
 type emitSite struct {
 	name  string
@@ -134,10 +145,15 @@ func c2Entry(c *Ctx) {
 	name := fn.String()
 	// locate sites
 	var sites []emitSite
+	entParam = "ent"
+	if len(fn.Params) >= 2 {
+		entParam = PN(fn.Params[1])
+	}
+	defer func() { entParam = "ent" }()
 	bd := func(v ssa.Value) string {
 		var d string
 		Bound(func() { d = Desc(v) })
-		return d
+		return normEnt(d)
 	}
 	payloadAfter := func(key ssa.Instruction, want string) bool {
 		// some call reachable right after key-emission in the same guarded region takes the payload
@@ -226,14 +242,14 @@ func c2Entry(c *Ctx) {
 			sites = append(sites, s)
 		case "addFields":
 			sites = append(sites, emitSite{name: "fields", instr: cl, want: []string{}})
-			c.Check(Desc(args[0]) == "clone("+fn.Params[0].Name()+")" && Strip(args[1]) == ssa.Value(fn.Params[2]), "R2.1", name, "payload/fields", cl.Pos(), "call-site fields are added to the per-call clone")
+			c.Check(Desc(args[0]) == "clone("+PN(fn.Params[0])+")" && Strip(args[1]) == ssa.Value(fn.Params[2]), "R2.1", name, "payload/fields", cl.Pos(), "call-site fields are added to the per-call clone")
 		case "closeOpenNamespaces":
 			if cl.Parent() == fn || Eligible(cl.Parent()) {
 				sites = append(sites, emitSite{name: "close-namespaces", instr: cl, want: []string{}})
 			}
 		case "Write", "AppendBytes":
-			if len(args) == 2 && Desc(args[1]) == "Bytes("+fn.Params[0].Name()+".buf)" {
-				sites = append(sites, emitSite{name: "context", instr: cl, want: []string{"Len(" + fn.Params[0].Name() + ".buf) > 0"}})
+			if len(args) == 2 && Desc(args[1]) == "Bytes("+PN(fn.Params[0])+".buf)" {
+				sites = append(sites, emitSite{name: "context", instr: cl, want: []string{"Len(" + PN(fn.Params[0]) + ".buf) > 0"}})
 			}
 		}
 	}
@@ -254,7 +270,7 @@ func c2Entry(c *Ctx) {
 		var got []string
 		Bound(func() {
 			for _, a := range AtomStrings(Guards(s.instr)) {
-				a = strings.ReplaceAll(a, "len(Bytes("+fn.Params[0].Name()+".buf))", "Len("+fn.Params[0].Name()+".buf)")
+				a = strings.ReplaceAll(a, "len(Bytes("+PN(fn.Params[0])+".buf))", "Len("+PN(fn.Params[0])+".buf)")
 				got = append(got, normCfg(a))
 			}
 		})
@@ -415,7 +431,7 @@ func c2Reference(c *Ctx) {
 				_, fresh := mu.Value.(*ssa.MakeInterface)
 				okReg = fresh && mu.Key == ssa.Value(on.Params[1])
 			}
-			if st, ok := in.(*ssa.Store); ok && Desc(st.Addr) == "m.cur" {
+			if st, ok := in.(*ssa.Store); ok && Desc(st.Addr) == PN(on.Params[0])+".cur" {
 				_, okCur = st.Val.(*ssa.MakeMap)
 			}
 		})
@@ -447,7 +463,7 @@ func c2Stored(fn *ssa.Function, depth int) (stored, key ssa.Value) {
 				return
 			}
 			h := helperOf(x)
-			if h == nil || len(h.Params) == 0 || len(Args(x)) == 0 || Desc(Args(x)[0]) != fn.Params[0].Name() {
+			if h == nil || len(h.Params) == 0 || len(Args(x)) == 0 || Desc(Args(x)[0]) != PN(fn.Params[0]) {
 				return
 			}
 			hs, hk := c2Stored(h, depth+1)
@@ -536,7 +552,7 @@ func c2Numbers(c *Ctx) {
 				call = cl
 				a := cl.Common().Args
 				b, _ := ConstInt(a[2])
-				ok = a[1] == ssa.Value(fn.Params[1]) && b == t.base && Desc(a[0]) == "b.bs"
+				ok = a[1] == ssa.Value(fn.Params[1]) && b == t.base && Desc(a[0]) == PN(fn.Params[0])+".bs"
 			}
 		}
 		ok = ok && call != nil && mustPass(fn, func(i ssa.Instruction) bool { return i == call }) && len(Calls(fn)) == 1
@@ -552,7 +568,7 @@ func c2Numbers(c *Ctx) {
 				a := cl.Common().Args
 				fm, _ := ConstInt(a[2])
 				pr, _ := ConstInt(a[3])
-				ok = a[1] == ssa.Value(af.Params[1]) && fm == 'f' && pr == -1 && a[4] == ssa.Value(af.Params[2]) && Desc(a[0]) == "b.bs"
+				ok = a[1] == ssa.Value(af.Params[1]) && fm == 'f' && pr == -1 && a[4] == ssa.Value(af.Params[2]) && Desc(a[0]) == PN(af.Params[0])+".bs"
 			}
 		}
 		ok = ok && call != nil && mustPass(af, func(i ssa.Instruction) bool { return i == call }) && len(Calls(af)) == 1
@@ -563,7 +579,7 @@ func c2Numbers(c *Ctx) {
 		// every path of appendFloat (helpers included), classified by the outcome of the NaN / ±Inf tests it makes:
 		// a value that tests as NaN/+Inf/-Inf is written as exactly that quoted literal and nothing else; the number
 		// formatter runs only after all three tests failed
-		val := fl.Params[1].Name()
+		val := PN(fl.Params[1])
 		tests := map[string]string{"IsNaN(" + val + ")": `"NaN"`, "IsInf(" + val + ", 1)": `"+Inf"`, "IsInf(" + val + ", -1)": `"-Inf"`}
 		seqs, trunc := ConcPaths(fl, ConcCfg{
 			Branch: func(cond ssa.Value, taken bool, st *ConcState) string {
@@ -687,7 +703,7 @@ func c2ErrorExpansion(c *Ctx) {
 			}
 		}
 		ok := app != nil && HasAtom(Guards(app), func(s string) bool {
-			return strings.HasSuffix(s, "!= nil") && strings.HasPrefix(s, ea.Params[0].Name()+"[")
+			return strings.HasSuffix(s, "!= nil") && strings.HasPrefix(s, PN(ea.Params[0])+"[")
 		})
 		c.Check(ok, "R2.7", ea.String(), "nil-causes-skipped", ea.Pos(), "nil causes are skipped, every other one is appended as an object")
 	}
@@ -707,7 +723,7 @@ func c2ErrorExpansion(c *Ctx) {
 			}
 		}
 		ok := app != nil && HasAtom(Guards(app), func(s string) bool {
-			return strings.HasSuffix(s, "!= nil") && strings.HasPrefix(s, za.Params[0].Name()+"[")
+			return strings.HasSuffix(s, "!= nil") && strings.HasPrefix(s, PN(za.Params[0])+"[")
 		})
 		c.Check(ok, "R2.7", za.String(), "nil-errors-skipped", za.Pos(), "zap.Errors skips nil elements and appends every other one as an object")
 	}
@@ -758,7 +774,7 @@ func c2Reflect(c *Ctx) {
 		okNull := false
 		for _, r := range Returns(er) {
 			if Desc(RetVals(r)[0]) == "nullLiteralBytes" {
-				okNull = containsS(AtomStrings(Guards(r)), er.Params[1].Name()+" == nil")
+				okNull = containsS(AtomStrings(Guards(r)), PN(er.Params[1])+" == nil")
 			}
 		}
 		c.Check(ok && okNull, "R2.8", er.String(), "reset-encode-trim", er.Pos(), "nil short-circuits to null; otherwise the scratch buffer is reset (or freshly allocated), the value encoded, and exactly the trailing newline trimmed")
@@ -781,7 +797,8 @@ func c2Reflect(c *Ctx) {
 		ok := false
 		for _, st := range FieldStoresOf(tn, c.Named("go.uber.org/zap/buffer", "Buffer")) {
 			atoms := AtomStrings(Guards(st.Instr))
-			ok = containsS(atoms, "b.bs[(len(b.bs) - 1)] == 10") && Desc(st.Instr.Val) == "b.bs[:(len(b.bs) - 1)]"
+			bn := PN(tn.Params[0]) + ".bs"
+			ok = containsS(atoms, bn+"[(len("+bn+") - 1)] == 10") && Desc(st.Instr.Val) == bn+"[:(len("+bn+") - 1)]"
 		}
 		c.Check(ok, "R2.8", tn.String(), "trims-one-newline", tn.Pos(), "TrimNewline removes exactly one trailing '\\n'")
 	}
@@ -859,7 +876,7 @@ func c2TrimmedPath(c *Ctx, rule string) {
 		return
 	}
 	N := depth(3, 5)
-	rn := fn.Params[0].Name()
+	rn := PN(fn.Params[0])
 	iv := func(f SliceFact) string { return "[" + itoa(int(f.Lo)) + "," + itoa(int(f.Hi)) + ")" }
 	seqs, trunc := ConcPaths(fn, ConcCfg{
 		Conc: func(d string) (int64, bool) {
